@@ -476,10 +476,12 @@ class FNode(object):
             # Return width defined in the declaration
             return cast(types._BVType, cast(types._FunctionType, self.function_name().symbol_type()).return_type).width
         elif self.is_ite():
-            # Recursively call bv_width on the left child
+            # Look at the left child, without recursion on nested ITEs
             # (The right child has the same width if the node is well-formed)
-            width_l = self.arg(1).bv_width()
-            return width_l
+            node = self.arg(1)
+            while node.is_ite():
+                node = node.arg(1)
+            return node.bv_width()
         elif self.is_select():
             # This must be a select over an array with BV value type
             ty = self.arg(0).get_type()
